@@ -118,7 +118,21 @@ Theorem C12_singular_no_verdict :
 Proof. exact singular_verdict. Qed.
 Print Assumptions C12_singular_no_verdict.
 
-(* 7. returned bases: a basis that passed the library's own optimality test has exactly one basic entry per row *)
+(* 7. returned bases.  returned_basis_primal: the primal vector accepted by the library's own optimality test
+      (QSexact_optimal_test, model LP/OptTest.v) is the exact basic solution of the basis it was accepted with, whenever that
+      basis is non-singular and the non-basic components sit at the values their statuses name (at-lower: lower bound,
+      at-upper: upper bound, free: 0 - the test itself clamps free columns, hence the hypothesis) *)
+Theorem C12_returned_basis_primal :
+  forall P ns isR B ps ds s xB,
+    wf_logicals (skipn ns (i_cols P)) 0 = true ->
+    opt_test P ns B ps ds = Some s -> load_ok P ns isR B = true ->
+    nonsingular (bm P) (Bmat P B) -> xB_of P B = Some xB ->
+    (forall j, (j < bn P)%nat -> basicb B j = false -> qnth (sx s ++ sslack s) j == xnb P B j) ->
+    forall k, (k < bm P)%nat -> qnth (sx s ++ sslack s) (baz P B k) == qnth xB k.
+Proof. exact returned_basis_primal. Qed.
+Print Assumptions C12_returned_basis_primal.
+
+(* a basis that passed the library's own optimality test has exactly one basic entry per row *)
 Theorem C12_returned_basis_count :
   forall P ns B ps ds s, opt_test P ns B ps ds = Some s -> count_basic B = nrows P.
 Proof. exact returned_basis_count. Qed.
